@@ -8,7 +8,22 @@ def codec_nontrivial(case, impl):
 CODEC_C03 = r'Encode|re-encoding|decode\(encode|decoded fields|packet identifier 0|written by Encode'
 CODEC_C04 = r'panicked|returned n=|failed with n=|lies outside|rejected the well-formed|no complete fixed header'
 
+def topics_nontrivial(case, impl):
+    # non-trivial: some Subscribers / Retained query returned a non-empty result
+    return any(len(t.split()) > 1 and t.split()[0] == '0' for t in impl.split('|'))
+
 PROPS = {
+    'C06': dict(
+        coq='Properties/C06.v',
+        drivers=[dict(name='topicsdrv', nontrivial=topics_nontrivial,
+                      env=dict(quick=dict(VERIF_TOPICS_N='400', VERIF_TOPICS_LEVELS='3'),
+                               thorough=dict(VERIF_TOPICS_N='6000', VERIF_TOPICS_LEVELS='4')))],
+        rule='histories of Subscribe/Unsubscribe/Subscribers/Retain/Retained on a fresh topics.NewMemProvider(): exhaustive over all '
+             'filters x topic names of up to 3 (quick) / 4 (thorough) levels over {a, b, empty, +, #}, plus random histories with '
+             'several subscribers over a larger vocabulary incl. malformed levels. Non-trivial: a query returned a non-empty result.',
+        assumptions=['Topics/Model.v is a hand-written model of topics/memtopics.go tied to the code by running the same histories '
+                     '(topicsdrv, public API + verif export of nextTopicLevel); section 4.7 matcher in the harness is the oracle'],
+    ),
     'C03': dict(
         coq='Properties/C03.v',
         drivers=[dict(name='codecdrv', oracle_filter=CODEC_C03, nontrivial=codec_nontrivial,
